@@ -135,6 +135,7 @@ type Path struct {
 	isInitPath bool
 	top        *frame
 	initDepth  int
+	loopBound  int // harness-set loop bound (verifLoopBound), 0 = the engine default
 	budgetInit bool
 	budget     int
 	spec       bool
